@@ -196,14 +196,16 @@ def check(ctx):
             g, ccall = g2, cc2[0]
     gq = Model.qual(g)
     bypass = None
+    none_in_body = True
     for n in walk_no_nested(g):
         if isinstance(n, ast.If):
-            t = ast.unparse(n.test)
-            if t in ('cache_dir is None', 'not cache_dir', 'cache_dir is not None'):
+            fm = sem.cond_formula(n.test)        # canonical literal and polarity: `not cache_dir is None`, `cache_dir is not None`, `not cache_dir` ...
+            if fm[0] == 'lit' and fm[1] in ('cache_dir is None', 'cache_dir'):
                 bypass = n
+                none_in_body = fm[2] if fm[1] == 'cache_dir is None' else not fm[2]
     if bypass is None:
         raise AnalysisError('cache bypass test not found in %s' % gq)
-    none_arm = bypass.orelse if ast.unparse(bypass.test) == 'cache_dir is not None' else bypass.body
+    none_arm = bypass.body if none_in_body else bypass.orelse
     txt = ' '.join(ast.unparse(s) for s in none_arm)
     uncached_calls = [c for s in none_arm for c in ast.walk(s) if isinstance(c, ast.Call) and isinstance(c.func, ast.Name) and c.func.id == 'compile_dict']
     ok = ('diskcache' not in txt and f.name not in txt and len(uncached_calls) == 1 and flow.terminates(none_arm))
